@@ -12,10 +12,10 @@ DATA_BASE = 0x600000
 
 
 class Insn:
-    __slots__ = ("addr", "size", "mnem", "ops", "text", "prefix")
+    __slots__ = ("addr", "size", "mnem", "ops", "text", "prefix", "raw")
 
-    def __init__(self, addr, size, mnem, ops, text, prefix):
-        self.addr, self.size, self.mnem, self.ops, self.text, self.prefix = addr, size, mnem, ops, text, prefix
+    def __init__(self, addr, size, mnem, ops, text, prefix, raw=b""):
+        self.addr, self.size, self.mnem, self.ops, self.text, self.prefix, self.raw = addr, size, mnem, ops, text, prefix, raw
 
     def __repr__(self):
         return "%x: %s" % (self.addr, self.text)
@@ -130,7 +130,7 @@ def parse_disasm(elf):
             rest = p2[1] if len(p2) > 1 else ""
         rest = re.sub(r"<[^>]*>", "", rest).strip()
         ops = [x.strip() for x in OPSPLIT.split(rest)] if rest else []
-        insns[addr] = Insn(addr, size, mnem, ops, text, prefix)
+        insns[addr] = Insn(addr, size, mnem, ops, text, prefix, bytes(int(x, 16) for x in m.group(2).split()))
     return insns
 
 
